@@ -490,6 +490,7 @@ class FnEdit:
         self.selfmut = None
         self.desugar_vars = []
         self.loadstore = []
+        self.specof = None
 
 
 class Generator:
@@ -506,6 +507,7 @@ class Generator:
         self.rule_counts = {}
         self.clauses = 0
         self.defines = set()
+        self.spec_registry = {}  # fn path -> (spec, generics): `//@ specof NAME` re-uses the contract of a forwarding callee
 
     # ---- helpers
     def file(self, rel):
@@ -667,6 +669,8 @@ class Generator:
                         e.external = True
                 elif c == 'shape':
                     e.shape = True
+                elif c == 'specof':
+                    e.specof = tok[1]
                 elif c == 'selfmut':
                     e.selfmut = tok[1]
                 elif c == 'desugar':
@@ -784,6 +788,13 @@ class Generator:
         return items[0]
 
     def _do_fn(self, frel, path, kv, edit, trel, tline):
+        if edit.specof:
+            if edit.specof not in self.spec_registry:
+                raise Inconclusive('%s: specof %s: no such contract seen before' % (path, edit.specof))
+            edit.spec, gen = self.spec_registry[edit.specof]
+            if not edit.generics:
+                edit.generics = list(gen)
+        self.spec_registry[kv.get('as', path)] = (edit.spec, list(edit.generics))
         f = self.file(frel)
         it = self._locate_fn(f, path)
         self._emit_fn(it.text, frel, it.first_line, path, kv, edit, trel, tline)
